@@ -44,6 +44,11 @@ def extra_worlds():
         {"all.do": [S(deps=["a", "b"])], "a.do": [S(deps=["x"])], "b.do": [S(seq=[("redo", ["x"])], out="file")],
          "x.do": [S(deps=["s"])]},
         ["all", "a", "b", "x"], ["all"])
+    w["tolerant-shared"] = World(   # two jobs whose scripts go on without a shared dependency that fails
+        "tolerant-shared", {"s": ["0", "1"], "flag": ["1", "0"]},
+        {"all.do": [S(deps=["t1", "t2"])], "t1.do": [S(deps=["c"], tolerant=True)], "t2.do": [S(deps=["c"], tolerant=True, out="file")],
+         "c.do": [S(kind="csum", deps=["s"], fail="flag", proj=True, out="file")]},
+        ["all", "t1", "t2", "c"], ["all"])
     w["chain3"] = World(
         "chain3", {"s": ["0", "1"]},
         {"t1.do": [S(deps=["m"])], "t2.do": [S(deps=["m"], out="file")], "m.do": [S(deps=["l"])], "l.do": [S(deps=["s"])]},
@@ -77,6 +82,9 @@ def scenarios(tier):
     L.append((SC.scn("forced-redo-of-shared-j2", w["forced-shared"], ["redo --no-log -j2 all"], visible=VIS), 1 if q else 2))
     L.append((SC.scn("forced-redo-of-shared-rebuild-j2", w["forced-shared"], ["redo --no-log -j2 all"],
                      setup=[["ifchange", ["all"]], ["edit", "s", "1"]], visible=VIS), 1 if q else 2))
+    # two jobs go on without a shared dependency whose build fails; the repaired dependency must reach both afterwards
+    # (the follow-up rebuild after editing every source -- flag included -- is compared with the serial run's)
+    L.append((SC.scn("tolerated-failure-of-shared-j2", w["tolerant-shared"], ["redo --no-log -j2 all"], visible=VIS), 1 if q else 2))
     # every order of the command line (what --shuffle can produce) for two targets sharing a chain
     for perm in list(itertools.permutations(["t1", "t2"]))[:1 if q else 2]:      # quick: one order
         L.append((SC.scn("chain3-j2-" + "".join(perm), w["chain3"], ["redo --no-log -j2 " + " ".join(perm)], visible=VIS), 1 if q else 2))
